@@ -10,5 +10,6 @@ python3 translator/maps.py ${TV_REPO:-/repo} lean/Tv/GenMap.lean
 python3 translator/drivers.py ${TV_REPO:-/repo} lean/Tv/GenDrv.lean
 python3 translator/gens.py ${TV_REPO:-/repo} lean/Tv/GenLin.lean
 python3 translator/parts.py ${TV_REPO:-/repo} lean/Tv/GenPart.lean
+python3 translator/fdiff.py ${TV_REPO:-/repo} lean/Tv/GenFd.lean
 (cd lean && lake build Tv tvmodel)
 (cd harness && cargo build --features polars)
